@@ -207,8 +207,10 @@ CLAIM.update({
 })
 
 PLAN["C02"] = dict(
-    quick=[dict(test="TestC02Rapid", checks=500), dict(test="TestC02Service", checks=600), *shards("TestC02EveryCut", 4)],
-    thorough=[*shards("TestC02Rapid", 8, checks=10000), *shards("TestC02Service", 6, checks=10000), *shards("TestC02EveryCut", 4)],
+    quick=[dict(test="TestC02Rapid", checks=500), dict(test="TestC02Service", checks=600), *shards("TestC02EveryCut", 4),
+           dict(test="TestC02Concurrent"), dict(test="TestC02Concurrent", shard=0, nshards=2, env={"GOMAXPROCS": "1"})],
+    thorough=[*shards("TestC02Rapid", 8, checks=10000), *shards("TestC02Service", 6, checks=10000), *shards("TestC02EveryCut", 4),
+              dict(test="TestC02Concurrent"), dict(test="TestC02Concurrent", env={"GOMAXPROCS": "1"}), dict(test="TestC02Concurrent", env={"GOMAXPROCS": "4"})],
 )
 
 PLAN["C11"] = dict(
@@ -342,12 +344,12 @@ CLAIM.update({
 })
 
 PLAN["C14"] = dict(
-    quick=[dict(test="TestC14Rapid", checks=1500), *shards("TestC14Enum", 4), *shards("TestC14Sock", 6)],
-    thorough=[*shards("TestC14Rapid", 12, checks=15000), *shards("TestC14Enum", 4), *shards("TestC14Sock", 6)],
+    quick=[dict(test="TestC14Rapid", checks=1500), dict(test="TestC14Rapid", checks=600, shard=1, env={"GOMAXPROCS": "1"}), *shards("TestC14Enum", 4), *shards("TestC14Sock", 6)],
+    thorough=[*shards("TestC14Rapid", 12, checks=15000), *shards("TestC14Rapid", 4, checks=8000, env={"GOMAXPROCS": "1"}), *shards("TestC14Enum", 4), *shards("TestC14Sock", 6)],
 )
 PLAN["C15"] = dict(
-    quick=[dict(test="TestC15Rapid", checks=1500), *shards("TestC15Enum", 6), *shards("TestC15Sock", 6)],
-    thorough=[*shards("TestC15Rapid", 12, checks=15000), *shards("TestC15Enum", 12), *shards("TestC15Sock", 6)],
+    quick=[dict(test="TestC15Rapid", checks=1500), dict(test="TestC15Rapid", checks=600, shard=1, env={"GOMAXPROCS": "1"}), *shards("TestC15Enum", 6), *shards("TestC15Sock", 6)],
+    thorough=[*shards("TestC15Rapid", 12, checks=15000), *shards("TestC15Rapid", 4, checks=8000, env={"GOMAXPROCS": "1"}), *shards("TestC15Enum", 12), *shards("TestC15Sock", 6)],
 )
 
 LEVEL.update({"C14": "exploration", "C15": "exploration"})
@@ -389,4 +391,34 @@ CLAIM.update({
              "enumerated; real-clock runs on unix/abstract/TCP listeners with one-sided margins.",
         ref="DESIGN.md section 4, C15", technique="stateful model-based property testing with injected expiries (fake listener) + bounded-exhaustive event sequences + real-clock runs",
         note="found and fixed: listener not closed on a timeout return (79d85b9)"),
+})
+
+PLAN["C20"] = dict(
+    quick=[*shards("TestC20Product", 2), dict(test="TestC20Rapid", checks=150)],
+    thorough=[*shards("TestC20Product", 2), *shards("TestC20Rapid", 8, checks=700)],
+    workers=3,
+)
+
+LEVEL.update({"C20": "exploration"})
+RULE.update({
+    "C20": "case = one environment, run in a fresh child process (this test binary in helper mode) that inherits three descriptors 3,4,5 "
+           "(listening abstract unix sockets, except that the descriptor the statement selects - or 3 - is of the generated kind: listening unix "
+           "socket, listening TCP socket, regular file, pipe), sets LISTEN_PID itself (own pid / parent's pid / unset / a garbage literal) and calls "
+           "Service.Listen with a separate fallback address. Full product: 4 pid modes x LISTEN_FDS in {unset,'','foo','-1','0','1','2','3'} x "
+           "LISTEN_FDNAMES in {unset, fewer, more (varlink first / second), varlink first / middle / last / twice / absent, 'Varlink', empty} x 4 "
+           "kinds = 1408 children. Plus rapid-generated boundary spellings (' 1', '1 ', '+2', '03', huge, full-width digit, names with blanks or "
+           "empty entries, pid literals). Oracle: activation table from the statement; the parent asks every candidate endpoint for GetInfo - the "
+           "predicted one first and generously (10 s, proves the child is up), then the others concurrently for 150 ms: exactly the predicted "
+           "endpoint answers with the child's token; the child exits cleanly when told to shut down. Arguable integer spellings are don't-care "
+           "(some endpoint must answer). Non-trivial = activation selected among >= 2 descriptors, or rejected for a reason other than all "
+           "variables unset.",
+})
+ASSUME.update({"C20": ["'does not answer' for the non-predicted endpoints is a 150 ms observation made after the predicted endpoint answered: a slow machine can hide a wrong answerer, never fabricate one",
+                        "LISTEN_FDS spellings other than ^[1-9][0-9]{0,8}$ that some reader would still call a positive integer ('+2', '03', ' 1') are don't-care"]})
+CLAIM.update({
+    "C20": dict(
+        text="The statement's configuration product is enumerated completely (1408 child processes per run), each compared with an activation "
+             "table by probing all candidate endpoints; boundary spellings are generated with rapid.",
+        ref="DESIGN.md section 4, C20", technique="bounded-exhaustive enumeration of the configuration product + property-based testing (rapid) of boundary spellings; reference activation table as oracle",
+        note="child = this test binary re-executed with ExtraFiles; LISTEN_PID is set by the child itself"),
 })
